@@ -125,8 +125,19 @@ def h_where(cond, x=None, y=None):
             # index-like result: concretise the condition (fork)
             return _np.where(concretize_bool(_sa(cond)), x, y)
     vd = _np.asarray(S._shadow_call(_np.where, [cond, x, y])).dtype
+    csize = cond.size if isinstance(cond, _ND) else 1
+    if csize <= 2 and is_symbolic(cond):
+        # tiny selections are decided by a fork: the selected value stays transparent to the normal form (an opaque
+        # if-then-else variable would hide e.g. the radical beta in QuadricTensor.components)
+        cond = concretize_bool(cond if isinstance(cond, _ND) else _sa(cond))
     c = S._obj(cond) if isinstance(cond, _ND) else cond
-    return _elementwise(lambda cc, a, b: ite(_truth(cc), lift(a, vd.kind), lift(b, vd.kind)), c, x, y, vd=vd)
+    r = _elementwise(lambda cc, a, b: ite(_truth(cc), lift(a, vd.kind), lift(b, vd.kind)), c, x, y, vd=vd)
+    if not isinstance(r, _ND):
+        # numpy.where returns a 0-d array (not a scalar) for scalar arguments
+        a0 = _np.empty((), dtype=object)
+        a0[()] = r
+        r = SymArray(a0, vd)
+    return r
 
 
 # --------------------------------------------------------------------------- parts / realness
